@@ -1,6 +1,6 @@
 //! C20 — serialized values round-trip exactly and keep their field structure.
 use cgmath::{Ortho, Perspective, PerspectiveFov, PlanarFov};
-use mc_props::tokens::{from_tokens, to_tokens, Tok};
+use mc_props::tokens::{from_tokens, from_tokens_as, to_tokens, to_tokens_as, Tok};
 use mc_props::*;
 use serde::de::DeserializeOwned;
 use serde::Serialize;
@@ -176,12 +176,29 @@ struct Cfg<S: Sc> {
     shape: Shape,
     /// components -> (tokens, json, tokens after token round trip, json after json round trip)
     run: Box<dyn Fn(&[S]) -> Result<(Vec<Tok>, String, Vec<Tok>, String), String> + Send + Sync>,
+    /// components -> tokens of the value built from them through the public fields / constructors (where the type
+    /// has them), and the tokens before / after a round trip through a format that is not human readable
+    extra: Box<dyn Fn(&[S]) -> Result<(Option<Vec<Tok>>, Vec<Tok>, Vec<Tok>), String> + Send + Sync>,
 }
-fn cfg<S: Sc, V: Serialize + DeserializeOwned + 'static>(name: &str, shape: Shape) -> Cfg<S> {
+fn cfg<S: Sc, V: Serialize + DeserializeOwned + 'static>(name: &str, shape: Shape, mk: Option<fn(&[S]) -> V>) -> Cfg<S> {
     let sh = shape.clone();
+    let sh2 = shape.clone();
     Cfg {
         name: format!("{name}<{}>", S::NAME),
         shape,
+        extra: Box::new(move |comps: &[S]| {
+            let mut toks = Vec::new();
+            tokens_of(&sh2, comps, &mut 0, &mut toks);
+            let v: V = from_tokens(&toks).map_err(|e| format!("cannot build the value from its expected shape: {e}"))?;
+            let t_pub = match mk {
+                Some(f) => Some(to_tokens(&f(comps)).map_err(|e| format!("token serialization of the publicly built value failed: {e}"))?),
+                None => None,
+            };
+            let t_nh = to_tokens_as(&v, false).map_err(|e| format!("serialization (not human readable) failed: {e}"))?;
+            let v_nh: V = from_tokens_as(&t_nh, false).map_err(|e| format!("round trip (not human readable) failed: {e}"))?;
+            let t_nh2 = to_tokens_as(&v_nh, false).map_err(|e| e.to_string())?;
+            Ok((t_pub, t_nh, t_nh2))
+        }),
         run: Box::new(move |comps: &[S]| {
             // the value is built by deserializing the token stream of the expected shape ...
             let mut toks = Vec::new();
@@ -201,35 +218,36 @@ fn cfg<S: Sc, V: Serialize + DeserializeOwned + 'static>(name: &str, shape: Shap
 
 fn configs<S: Sc + cgmath::BaseNum>() -> Vec<Cfg<S>> {
     vec![
-        cfg::<S, Vector1<S>>("Vector1", vecn(1)),
-        cfg::<S, Vector2<S>>("Vector2", vecn(2)),
-        cfg::<S, Vector3<S>>("Vector3", vecn(3)),
-        cfg::<S, Vector4<S>>("Vector4", vecn(4)),
-        cfg::<S, Point1<S>>("Point1", vecn(1)),
-        cfg::<S, Point2<S>>("Point2", vecn(2)),
-        cfg::<S, Point3<S>>("Point3", vecn(3)),
+        cfg::<S, Vector1<S>>("Vector1", vecn(1), Some(|c| Vector1 { x: c[0] })),
+        cfg::<S, Vector2<S>>("Vector2", vecn(2), Some(|c| Vector2 { x: c[0], y: c[1] })),
+        cfg::<S, Vector3<S>>("Vector3", vecn(3), Some(|c| Vector3 { x: c[0], y: c[1], z: c[2] })),
+        cfg::<S, Vector4<S>>("Vector4", vecn(4), Some(|c| Vector4 { x: c[0], y: c[1], z: c[2], w: c[3] })),
+        cfg::<S, Point1<S>>("Point1", vecn(1), Some(|c| Point1 { x: c[0] })),
+        cfg::<S, Point2<S>>("Point2", vecn(2), Some(|c| Point2 { x: c[0], y: c[1] })),
+        cfg::<S, Point3<S>>("Point3", vecn(3), Some(|c| Point3 { x: c[0], y: c[1], z: c[2] })),
     ]
 }
 fn float_configs<S: Sc + cgmath::BaseFloat>() -> Vec<Cfg<S>> {
     let mut v = configs::<S>();
     v.extend(vec![
-        cfg::<S, Matrix2<S>>("Matrix2", matn(2)),
-        cfg::<S, Matrix3<S>>("Matrix3", matn(3)),
-        cfg::<S, Matrix4<S>>("Matrix4", matn(4)),
-        cfg::<S, Quaternion<S>>("Quaternion", quat()),
-        cfg::<S, Rad<S>>("Rad", angle()),
-        cfg::<S, Deg<S>>("Deg", angle()),
-        cfg::<S, Euler<Rad<S>>>("Euler<Rad>", st(&[("x", angle()), ("y", angle()), ("z", angle())])),
-        cfg::<S, Euler<Deg<S>>>("Euler<Deg>", st(&[("x", angle()), ("y", angle()), ("z", angle())])),
-        cfg::<S, Basis2<S>>("Basis2", basis(2)),
-        cfg::<S, Basis3<S>>("Basis3", basis(3)),
-        cfg::<S, PerspectiveFov<S>>("PerspectiveFov", st(&[("fovy", angle()), ("aspect", Shape::Scalar), ("near", Shape::Scalar), ("far", Shape::Scalar)])),
-        cfg::<S, Perspective<S>>("Perspective", st(&[("left", Shape::Scalar), ("right", Shape::Scalar), ("bottom", Shape::Scalar), ("top", Shape::Scalar), ("near", Shape::Scalar), ("far", Shape::Scalar)])),
-        cfg::<S, Ortho<S>>("Ortho", st(&[("left", Shape::Scalar), ("right", Shape::Scalar), ("bottom", Shape::Scalar), ("top", Shape::Scalar), ("near", Shape::Scalar), ("far", Shape::Scalar)])),
-        cfg::<S, PlanarFov<S>>("PlanarFov", st(&[("fovy", angle()), ("aspect", Shape::Scalar), ("height", Shape::Scalar), ("near", Shape::Scalar), ("far", Shape::Scalar)])),
-        cfg::<S, Decomposed<Vector3<S>, Quaternion<S>>>("Decomposed<Vector3,Quaternion>", decomposed(quat(), 3)),
-        cfg::<S, Decomposed<Vector3<S>, Basis3<S>>>("Decomposed<Vector3,Basis3>", decomposed(basis(3), 3)),
-        cfg::<S, Decomposed<Vector2<S>, Basis2<S>>>("Decomposed<Vector2,Basis2>", decomposed(basis(2), 2)),
+        // components come in serialization order: columns x, y, z, w of a matrix, each x..w; a quaternion's v.x, v.y, v.z, then s
+        cfg::<S, Matrix2<S>>("Matrix2", matn(2), Some(|c| Matrix2 { x: Vector2 { x: c[0], y: c[1] }, y: Vector2 { x: c[2], y: c[3] } })),
+        cfg::<S, Matrix3<S>>("Matrix3", matn(3), Some(|c| Matrix3 { x: Vector3 { x: c[0], y: c[1], z: c[2] }, y: Vector3 { x: c[3], y: c[4], z: c[5] }, z: Vector3 { x: c[6], y: c[7], z: c[8] } })),
+        cfg::<S, Matrix4<S>>("Matrix4", matn(4), Some(|c| Matrix4 { x: Vector4 { x: c[0], y: c[1], z: c[2], w: c[3] }, y: Vector4 { x: c[4], y: c[5], z: c[6], w: c[7] }, z: Vector4 { x: c[8], y: c[9], z: c[10], w: c[11] }, w: Vector4 { x: c[12], y: c[13], z: c[14], w: c[15] } })),
+        cfg::<S, Quaternion<S>>("Quaternion", quat(), Some(|c| Quaternion { v: Vector3 { x: c[0], y: c[1], z: c[2] }, s: c[3] })),
+        cfg::<S, Rad<S>>("Rad", angle(), Some(|c| Rad(c[0]))),
+        cfg::<S, Deg<S>>("Deg", angle(), Some(|c| Deg(c[0]))),
+        cfg::<S, Euler<Rad<S>>>("Euler<Rad>", st(&[("x", angle()), ("y", angle()), ("z", angle())]), Some(|c| Euler { x: Rad(c[0]), y: Rad(c[1]), z: Rad(c[2]) })),
+        cfg::<S, Euler<Deg<S>>>("Euler<Deg>", st(&[("x", angle()), ("y", angle()), ("z", angle())]), Some(|c| Euler { x: Deg(c[0]), y: Deg(c[1]), z: Deg(c[2]) })),
+        cfg::<S, Basis2<S>>("Basis2", basis(2), None),
+        cfg::<S, Basis3<S>>("Basis3", basis(3), None),
+        cfg::<S, PerspectiveFov<S>>("PerspectiveFov", st(&[("fovy", angle()), ("aspect", Shape::Scalar), ("near", Shape::Scalar), ("far", Shape::Scalar)]), Some(|c| PerspectiveFov { fovy: Rad(c[0]), aspect: c[1], near: c[2], far: c[3] })),
+        cfg::<S, Perspective<S>>("Perspective", st(&[("left", Shape::Scalar), ("right", Shape::Scalar), ("bottom", Shape::Scalar), ("top", Shape::Scalar), ("near", Shape::Scalar), ("far", Shape::Scalar)]), Some(|c| Perspective { left: c[0], right: c[1], bottom: c[2], top: c[3], near: c[4], far: c[5] })),
+        cfg::<S, Ortho<S>>("Ortho", st(&[("left", Shape::Scalar), ("right", Shape::Scalar), ("bottom", Shape::Scalar), ("top", Shape::Scalar), ("near", Shape::Scalar), ("far", Shape::Scalar)]), Some(|c| Ortho { left: c[0], right: c[1], bottom: c[2], top: c[3], near: c[4], far: c[5] })),
+        cfg::<S, PlanarFov<S>>("PlanarFov", st(&[("fovy", angle()), ("aspect", Shape::Scalar), ("height", Shape::Scalar), ("near", Shape::Scalar), ("far", Shape::Scalar)]), Some(|c| PlanarFov { fovy: Rad(c[0]), aspect: c[1], height: c[2], near: c[3], far: c[4] })),
+        cfg::<S, Decomposed<Vector3<S>, Quaternion<S>>>("Decomposed<Vector3,Quaternion>", decomposed(quat(), 3), Some(|c| Decomposed { scale: c[0], rot: Quaternion { v: Vector3 { x: c[1], y: c[2], z: c[3] }, s: c[4] }, disp: Vector3 { x: c[5], y: c[6], z: c[7] } })),
+        cfg::<S, Decomposed<Vector3<S>, Basis3<S>>>("Decomposed<Vector3,Basis3>", decomposed(basis(3), 3), None),
+        cfg::<S, Decomposed<Vector2<S>, Basis2<S>>>("Decomposed<Vector2,Basis2>", decomposed(basis(2), 2), None),
     ]);
     v
 }
@@ -240,20 +258,60 @@ fn roundtrip<S: Sc>(rep: &mut Report, cfgs: &[Cfg<S>]) {
         let n = count(&c.shape);
         let k = if n <= 6 { 3 } else { rep.pick(2, 3) };
         let dev = DevSpace::new(n, alpha.len(), k);
+        // whole-value patterns over the first three letters (for the float types 0.0, -0.0, 1.0): uniform, one position
+        // different, every 3rd / 4th / 5th position different (identity matrices, unit columns, the identity quaternion,
+        // zero vectors: the values a "skip if default" attribute would drop)
+        let pl = 3.min(alpha.len());
+        let n_pat = alpha.len() + pl * pl * (n + 3);
         rep.cases(
             &format!("roundtrip/{}", c.name),
             "S",
-            &format!("generic components with <= {k} of {n} positions replaced by each of {} special values (0, -0, subnormals, MAX, 0.1, pi, ...); token format and serde_json", alpha.len()),
-            dev.len(),
+            &format!("generic components with <= {k} of {n} positions replaced by each of {} special values (0, -0, subnormals, MAX, 0.1, pi, ...), plus {n_pat} whole-value patterns (uniform; one position or every 3rd/4th/5th position 0, -0 or 1 on a background of 0, -0 or 1); the value also built through its public fields; token format (human readable and not) and serde_json", alpha.len()),
+            dev.len() + n_pat,
             Guard::states(5).distinct(5),
             |i, ctx| {
                 let mut comps: Vec<S> = (0..n).map(S::generic).collect();
-                for (p, l) in dev.get(i) {
-                    comps[p] = alpha[l];
+                if i < dev.len() {
+                    for (p, l) in dev.get(i) {
+                        comps[p] = alpha[l];
+                    }
+                } else {
+                    let j = i - dev.len();
+                    if j < alpha.len() {
+                        comps = vec![alpha[j]; n];
+                    } else {
+                        let j = j - alpha.len();
+                        let (fg, bg, which) = (alpha[j % pl], alpha[(j / pl) % pl], j / (pl * pl));
+                        comps = (0..n).map(|p| if which < n { if p == which { fg } else { bg } } else if p % (which - n + 3) == 0 { fg } else { bg }).collect();
+                    }
                 }
                 ctx.describe(|| format!("{} components (serialization order) {:?}", c.name, comps));
                 ctx.out(&comps.iter().map(|x| x.bits()).collect::<Vec<_>>());
                 ctx.t();
+                match (c.extra)(&comps) {
+                    Err(e) => ctx.fail(&key(&format!("{}/roundtrip", c.name)), || e),
+                    Ok((t_pub, t_nh, t_nh2)) => {
+                        let mut expected = Vec::new();
+                        tokens_of(&c.shape, &comps, &mut 0, &mut expected);
+                        let want: Vec<Tok> = comps.iter().map(|x| x.tok()).collect();
+                        if let Some(tp) = t_pub {
+                            // the value whose public field `x` holds comps[0] etc. must serialize `x` as comps[0]
+                            let mut scalars = Vec::new();
+                            let mut pos = 0;
+                            match match_shape::<S>(&c.shape, &tp, &mut pos, &c.name, &mut scalars) {
+                                Err(e) => ctx.fail(&key(&format!("{}/structure/public-fields", c.name)), || e),
+                                Ok(()) => { ctx.check(scalars == want && pos == tp.len(), &key(&format!("{}/serialized-components/public-fields", c.name)), || format!("the value built through its public fields serializes the scalars {:?}, its fields hold {:?}", scalars, want)); }
+                            }
+                        }
+                        let mut scalars = Vec::new();
+                        let mut pos = 0;
+                        match match_shape::<S>(&c.shape, &t_nh, &mut pos, &c.name, &mut scalars) {
+                            Err(e) => ctx.fail(&key(&format!("{}/structure/not-human-readable", c.name)), || e),
+                            Ok(()) => { ctx.check(scalars == want && pos == t_nh.len(), &key(&format!("{}/serialized-components/not-human-readable", c.name)), || format!("serialized scalars {:?}, components {:?}", scalars, want)); }
+                        }
+                        ctx.check(t_nh2 == t_nh, &key(&format!("{}/roundtrip/not-human-readable", c.name)), || format!("after the round trip the value serializes to {:?}, before: {:?}", t_nh2, t_nh));
+                    }
+                }
                 match (c.run)(&comps) {
                     Err(e) => ctx.fail(&key(&format!("{}/roundtrip", c.name)), || e),
                     Ok((t1, j1, t2, j3)) => {
@@ -285,7 +343,9 @@ fn roundtrip<S: Sc>(rep: &mut Report, cfgs: &[Cfg<S>]) {
 /// the hand-written Deserialize of Decomposed, driven with every key sequence of length <= 4
 fn protocol(rep: &mut Report) {
     type D = Decomposed<Vector3<f64>, Quaternion<f64>>;
-    let keys4 = ["scale", "rot", "disp", "bogus"];
+    // the three fields and names that are not fields: an arbitrary one, plausible aliases, another letter case, a padded name
+    let keys4 = ["scale", "rot", "disp", "bogus", "rotation", "Scale", "translation", " disp"];
+    let nk = keys4.len();
     let value_toks = |k: &str| -> Vec<Tok> {
         let mut out = Vec::new();
         match k {
@@ -296,22 +356,16 @@ fn protocol(rep: &mut Report) {
         }
         out
     };
-    let mut seqs: Vec<Vec<usize>> = Vec::new();
-    for len in 0..=4usize {
-        for idx in 0..4usize.pow(len as u32) {
-            seqs.push(alphabet::decode(idx, &vec![4; len]));
-        }
-    }
     // breadth-first over key sequences: state = sequence of keys fed so far
     let inits = vec![Vec::<usize>::new()];
     rep.bfs(
         "protocol/Decomposed",
         "S",
-        "deserializer driven with every key sequence of length <= 4 over {scale, rot, disp, <unknown>}; reference: three-flag automaton (accept iff no unknown key and all three present)",
+        "deserializer driven with every key sequence of length <= 4 over {scale, rot, disp, and five names that are not fields: bogus, rotation, Scale, translation, ' disp'}; reference: three-flag automaton (accept iff no unknown key and all three present)",
         inits,
+        nk,
         4,
-        4,
-        Guard::states(341).need("accepted", 6).need("rejected-missing", 10).need("rejected-unknown", 10),
+        Guard::states((1 + nk + nk * nk + nk * nk * nk + nk * nk * nk * nk) as u64).need("accepted", 6).need("rejected-missing", 10).need("rejected-unknown", 10),
         |st, act, _ctx| {
             let mut n = st.clone();
             n.push(act);
@@ -334,7 +388,7 @@ fn protocol(rep: &mut Report) {
                 }
             };
             // reference automaton
-            let unknown = st.contains(&3);
+            let unknown = st.iter().any(|k| *k >= 3);
             let all = [0, 1, 2].iter().all(|k| st.contains(k));
             let dup = (0..3).any(|k| st.iter().filter(|x| **x == k).count() > 1);
             ctx.t();
@@ -372,7 +426,7 @@ fn protocol(rep: &mut Report) {
                         "scale" => "\"scale\":2.5".to_string(),
                         "rot" => "\"rot\":{\"v\":{\"x\":0.1,\"y\":0.2,\"z\":0.3},\"s\":0.9}".to_string(),
                         "disp" => "\"disp\":{\"x\":7.0,\"y\":-8.0,\"z\":9.5}".to_string(),
-                        _ => "\"bogus\":1.0".to_string(),
+                        other => format!("\"{other}\":1.0"),
                     })
                     .collect();
                 let js = format!("{{{}}}", body.join(","));
@@ -385,7 +439,6 @@ fn protocol(rep: &mut Report) {
         },
         |st| format!("keys {:?}", st.iter().map(|k| keys4[*k]).collect::<Vec<_>>()),
     );
-    let _ = seqs;
 }
 
 fn main() {
